@@ -4,6 +4,7 @@ CONSTANTS
   SyncNotify = FALSE
   UnregUnderRead = FALSE
   HbLeak = FALSE
+  ResendHoldsSession = FALSE
   RetentionHoldsRead = FALSE
 INVARIANTS LocksConsistent
 PROPERTIES WriteReturns AllReturn
